@@ -320,7 +320,9 @@ extract_args(vector_string &args, const string &expr, size_t &p) const {
       while (r > q && isspace(expr[r - 1])) {
         --r;
       }
-      if (!args.empty() || r > q) {
+      // F() passes no argument to a macro without parameters, but one empty
+      // argument to a macro that has one.
+      if (!args.empty() || r > q || _num_parameters != 0) {
         args.push_back(expr.substr(q, r - q));
       }
     }
